@@ -11,18 +11,18 @@ From BV Require Gen.Tie.   (* the correspondence functions: kept in this file's 
 
 (* same messages, same return value / exception, same behaviour on close -- plan_mutator *)
 Theorem C20_plan_mutator_transparent :
-  forall (P : Type) (resume : P -> input -> outcome P) (p : P) (s : list input) (fuel : nat),
+  forall (P : Type) (resume : P -> input -> outcome P) (fixed : bool) (p : P) (s : list input) (fuel : nat),
     unstarted resume p -> ~ finding_C20_a s ->
-    trace (pm_resume resume id_proc (S fuel)) (pm_init p tt) s = trace resume p s.
+    trace (pm_resume resume id_proc fixed (S fuel)) (pm_init p tt) s = trace resume p s.
 Proof. exact @pm_transparent_nf. Qed.
 Print Assumptions C20_plan_mutator_transparent.
 
 (* ... and the wrapped plan receives exactly the driver's inputs, one per step (ltrace pairs every
    observation with the calls made on the wrapped plan; [ideal] is the bare plan logging its own input) *)
 Theorem C20_plan_mutator_inputs :
-  forall (P : Type) (resume : P -> input -> outcome P) (p : P) (s : list input) (fuel : nat),
+  forall (P : Type) (resume : P -> input -> outcome P) (fixed : bool) (p : P) (s : list input) (fuel : nat),
     ~ finding_C20_a s ->
-    ltrace (pm_lresume resume id_proc (S fuel)) (pm_init p tt) (Send VNone :: s)
+    ltrace (pm_lresume resume id_proc fixed (S fuel)) (pm_init p tt) (Send VNone :: s)
     = ltrace (ideal resume) p (Send VNone :: s).
 Proof. exact @pm_transparent_started_nf. Qed.
 Print Assumptions C20_plan_mutator_inputs.
@@ -52,15 +52,15 @@ Proof. exact nf_no_ge. Qed.
    plan_mutator raises KeyboardInterrupt / CancelledError at once without informing any plan;
    both mutators turn a thrown GeneratorExit / PlanHalt into close() of the wrapped plan and re-raise. *)
 Theorem C20_plan_mutator_base_only_not_forwarded :
-  forall (P : Type) (resume : P -> input -> outcome P) st m e fuel,
+  forall (P : Type) (resume : P -> input -> outcome P) fixed st m e fuel,
     is_Exception e = false -> is_GeneratorExit e = false ->
-    pm_lresume resume (@id_proc P) fuel (PMRun st m) (Throw e) = (Raised e, []).
+    pm_lresume resume (@id_proc P) fixed fuel (PMRun st m) (Throw e) = (Raised e, []).
 Proof. exact @pm_throw_base_only. Qed.
 
 Theorem C20_plan_mutator_generator_exit_closes :
-  forall (P : Type) (resume : P -> input -> outcome P) p st m e fuel,
+  forall (P : Type) (resume : P -> input -> outcome P) fixed p st m e fuel,
     pm_inv p st -> is_GeneratorExit e = true ->
-    pm_lresume resume (@id_proc P) fuel (PMRun st m) (Throw e) =
+    pm_lresume resume (@id_proc P) fixed fuel (PMRun st m) (Throw e) =
     (match close_result (resume p Close) with
      | CloseOk => Raised e | CloseRaised e' => Raised e' | CloseFuel => OutOfFuel end, [Call 0 Close]).
 Proof. exact @pm_throw_ge. Qed.
@@ -79,7 +79,7 @@ Definition w_prog : stmt := STry (SYield None 0) [] SPass (SYield None 1).
 
 Theorem C20_a_refuted_plan_mutator :
   exists s, finding_C20_a s /\
-    trace (pm_resume (cl_resume 50) id_proc 5) (pm_init (cl_init w_prog) tt) s
+    trace (pm_resume (cl_resume 50) id_proc true 5) (pm_init (cl_init w_prog) tt) s
     <> trace (cl_resume 50) (cl_init w_prog) s.
 Proof. exists [Send VNone; Throw EKeyboardInterrupt]. split; [reflexivity|]. vm_compute. discriminate. Qed.
 
@@ -98,7 +98,7 @@ Definition nv_script : list input := [Send VNone; Send (VInt 1); Throw (EUser 0)
 Example C20_nonvacuous :
   unstarted (cl_resume 50) (cl_init nv_prog) /\ ~ finding_C20_a nv_script /\
   trace (cl_resume 50) (cl_init nv_prog) nv_script = [OYield 0; OYield 1; OYield 2; ORaise ERuntimeError] /\
-  trace (pm_resume (cl_resume 50) id_proc 5) (pm_init (cl_init nv_prog) tt) nv_script
+  trace (pm_resume (cl_resume 50) id_proc true 5) (pm_init (cl_init nv_prog) tt) nv_script
   = [OYield 0; OYield 1; OYield 2; ORaise ERuntimeError].
 Proof.
   split; [apply cl_init_unstarted|]. split; [intro H; discriminate H|]. split; vm_compute; reflexivity.
